@@ -41,6 +41,7 @@ func (m *SimpleMovingVariance) Add(value float64) (float64, bool) {
 	m.mu.Lock()
 	defer m.mu.Unlock()
 	changed := false
+	previous := m.variance.Get()
 	if m.average.seenSamples > 0 {
 		m.variance.Add(math.Pow(value-m.average.Get(), 2))
 	}
@@ -55,7 +56,9 @@ func (m *SimpleMovingVariance) Add(value float64) (float64, bool) {
 		normalized = (value - mean) / stdev
 	}
 
-	if stdev != m.stdev || normalized != m.normalized {
+	// m.stdev is only the deviation remembered from the last Add (Update overwrites it): the stored variance itself
+	// decides as well, so that a sample which moves it is always reported
+	if variance != previous || stdev != m.stdev || normalized != m.normalized {
 		changed = true
 	}
 	m.stdev = stdev
